@@ -223,8 +223,26 @@ func (c *Ctx) RunInst(tier string) {
 	rec(nil, false)
 	rep.Bound = fmt.Sprintf("instrumented build, default schedule, step budget 1e6 ticks: every string of <=%d lexemes over a 24-lexeme alphabet (the last slot rotating over %d special byte sequences: NUL, ^Z, 0xFF, =, &, !, CR-LF, comment, |, >, ==, a truncated UTF-8 sequence); lengths <%d under three configurations", L, len(Specials), L)
 
+	// (A2) every string of <=2 lexemes (specials included) after a closed FOR
+	// block, inside one, and after an ordinary instruction line
+	prefixes := []string{"for 0\nrof\n", "i for 1\ndat i\nrof\n", "i for 2\ndat i\n", "dat 0\n", "x equ 1\n"}
+	all := append(append([]string{}, fixed...), Specials...)
+	for _, pre := range prefixes {
+		for _, a := range all {
+			if !c.mine() || c.expired() {
+				continue
+			}
+			c.runDefault(pre+a, cfg94, budget, "prefix + 1 lexeme")
+			for _, b := range all {
+				c.runDefault(pre+Join([]string{a, b}), cfg94, budget, "prefix + 2 lexemes")
+				c.runDefault(pre+Join([]string{a, b})+"\nrof\n", cfg94, budget, "prefix + 2 lexemes + rof")
+			}
+		}
+	}
+	rep.Bound += "; every string of <=2 lexemes (all special byte sequences included) appended to 5 prefixes (closed FOR block, FOR with body, open FOR, instruction line, EQU line), also followed by a closing ROF"
+
 	// (B) seeds and their mutations
-	lex := Lexemes("\x1a")
+	lex := append(Lexemes("\x1a"), Specials...)
 	for si, seed := range Seeds() {
 		toks := Tokens(seed)
 		o := c.runDefault(seed, cfg94, 4*budget, fmt.Sprintf("seed %d", si))
